@@ -10,6 +10,7 @@ from .c13 import arm_elems
 from .c15 import asg, key_of, _reach_until_ret
 
 TITLE = "WebSocket framing round-trips and reassembles under any segmentation"
+TECHNIQUE = 'cursor-window abstract interpretation of the frame decoder with a symbolic peer length (wrap-aware: wide lengths only through subtraction-form tests); encoder/decoder table extraction; limit-test reachability for every network-fed buffer; must-lockset same-section rule for close-sent; dataflow of the validated/delivered message'
 WF = "iora::network::WebSocketFrame"
 WS = "iora::network::WebSocketServer"
 WC = "iora::network::WebSocketClient"
